@@ -227,7 +227,7 @@ CLAIMED = {
              "limit - usage; placement constraint functions (resize incl. align_corners / half_pixel_centers, strides, broadcast, batch, matching "
              "shapes, transpose convolution) return a verdict - never raise - for every operator geometry with positive dimensions, so an operator "
              "that cannot be accelerated stays on the CPU instead of ending the compilation; vela.main() turns every VelaError subclass raised "
-             "below it into a console message and a non-zero status and lets nothing escape. Round 7-8 additions: scale constraints on scalar and per-axis scale representations; main() with every way of naming a configuration file (internal exceptions are violations); rewrite_mark_tensor_purpose over shared constants; TFLiteSerialiser.serialise_tensor for every rank and element type. Round 9 additions: fold_disconnect (SHAPE / QUANTIZE constant folding with a symbolic consumer list incl. the subgraph-output marker), t_per_axis (array-valued scale/zero point never reach scalar comparisons), t_resize_lowering (resize lowering ends without an internal exception).",
+             "below it into a console message and a non-zero status and lets nothing escape. Round 7-8 additions: scale constraints on scalar and per-axis scale representations; main() with every way of naming a configuration file (internal exceptions are violations); rewrite_mark_tensor_purpose over shared constants; TFLiteSerialiser.serialise_tensor for every rank and element type. Round 9 additions: fold_disconnect (SHAPE / QUANTIZE constant folding with a symbolic consumer list incl. the subgraph-output marker), t_per_axis (array-valued scale/zero point never reach scalar comparisons), t_resize_lowering (resize lowering ends without an internal exception), tensor_types_total (real parse_tensor for every element type of the schema; known finding: INT4 constants).",
         note="Partial: totality of reader, graph optimiser, scheduler search, allocator and writer over all models and option combinations is outside "
              "(no bounded encoding of 'all models'). Trusted: z3, symx NumPy proxies (NEP 50 promotion, validated against the installed NumPy in every run).",
         technique="dynamic symbolic execution of the real Python functions over z3 proxies (symx) incl. NumPy fixed-width/Python int promotion semantics, bounded; counterexample replay",
